@@ -1,4 +1,4 @@
-HOOK_COMMITS = ["27ad88b", "955c941", "4436111", "27d3bdc", "cfd1fa3", "16566ab", "69a0f58", "1bdaa91"]
+HOOK_COMMITS = ["27ad88b", "955c941", "4436111", "27d3bdc", "cfd1fa3", "16566ab", "69a0f58", "1bdaa91", "ff29c2d", "bd5f6db", "8b6ad29"]
 NOTES = ("Machine-checked proof in Lean 4 over a hand-written executable model of go-jsonrpc, tied to /repo on every run by "
          "(a) facts regenerated from the Go source with obligations re-checked by Lean and (b) a correspondence harness that "
          "runs the real library and the model's executable definitions on the same cases / replays implementation traces "
@@ -20,7 +20,9 @@ CHECKS = [
           "codes -32700/-32600/-32601/-32602 without running a handler; id echo; exactly one of result/error (over the regenerated "
           "MarshalJSON facts). Tie: regenerated facts (codes, struct tags, MarshalJSON branches, handleFrame table, normalizeID arms) "
           "+ differential run of the real ServeHTTP against the model on grammar-generated bodies, with the property's monitor "
-          "evaluated on the real reply.",
+          "evaluated on the real reply; WebSocket clause: Jrpc.wsCall models handleCall's writer selection (discard writer for id-less frames), "
+          "theorems C09_ws_notification_silent / C09_ws_exactly_one / C09_ws_exec_wire, tied by the skeleton of handleCall and by request frames "
+          "from the same grammar sent over a raw WebSocket connection.",
   "design_ref": "DESIGN.md §6 C09",
   "note": TB + " encoding/json is an oracle parameter of the model (per-element decodability is computed by the harness with the real decoder).",
   "technique": "Lean 4 theorems (induction over the batch fold, case analysis of handle) + regenerated facts + differential correspondence"},
@@ -55,14 +57,21 @@ CHECKS = [
   "note": TB + " Byte-level mutations are sampled, not proved; 'wedge' is observed as the same and other connections still answering.",
   "technique": "Lean 4 theorems (total executor with crash outcomes, induction over frame sequences) + regenerated skeleton facts + subprocess differential correspondence"},
  {"property_id": "C05",
-  "text": "PARTIAL (backoff clause only in this revision): theorems that for all minDelay <= maxDelay, all attempts and all jitters in [0,1) "
-          "the redial/retry delay lies in [minDelay, maxDelay] and is positive when minDelay > 0, so the loops never spin; interval lemma "
-          "used by the differential check. Tie: regenerated skeleton of backoff.next and default constants; differential run of the real "
-          "backoff.next (via a verif-tagged export) over a grid of settings and attempts 0..400 (2000 thorough). The healing / retry / "
-          "no-reconnect clauses are covered by the connection model of later revisions.",
+  "text": "Theorems over three models. Jrpc.Backoff: for all minDelay <= maxDelay, all attempts and all jitters in [0,1) the redial/retry delay lies in "
+          "[minDelay, maxDelay] and is positive. Jrpc.Redial (timed LTS of the redial goroutine, one event per hook site): every dial is at least "
+          "minDelay after the later of the start of its redial goroutine and the previous dial, a run of duration T contains at most T/minDelay "
+          "dials (never a busy loop), a client without a dial factory never dials, a successful redial returns to the fresh state and a later loss "
+          "starts a new cycle. Jrpc.Corr: while the redial runs nothing is registered and requests fail fast; after the swap the error flag is clear, "
+          "inflight is empty and the next request is registered. Jrpc.Redial.retryLoop: a retry-tagged call never returns the temporary connection "
+          "error, re-sends only after one and returns as soon as an attempt is answered; an untagged call returns its first outcome (typed by "
+          "C11.connection_error_typed when errors are mapped). PARTIAL: 'eventually returns a genuine result' = the loop returns once one attempt "
+          "is answered + the next attempt is enabled on a healed connection; that the outage ends and the scheduler is fair are assumptions. "
+          "Tie: regenerated skeletons of backoff.next, tryReconnect, handleWsConn, handleRpcCall, options; differential run of the real backoff.next; "
+          "reconnect scenarios through the proxy (outage with k refused redials x error mapping, flapping server, no-reconnect, keepalive after heal) "
+          "whose redial events with hook times are replayed through Jrpc.Redial and whose retry attempts are compared with retryLoop.",
   "design_ref": "DESIGN.md §6 C05",
   "note": TB + " Float arithmetic is modelled exactly; only interval membership with a stated slack is compared.",
-  "technique": "Lean 4 theorems (arithmetic over exact rationals) + regenerated skeleton facts + differential correspondence"},
+  "technique": "Lean 4 theorems (arithmetic over exact rationals; timed invariant of the redial LTS by induction over events; induction over the retry loop) + regenerated skeleton facts + differential correspondence + trace inclusion of reconnect scenarios"},
  {"property_id": "C11",
   "text": "Theorems over the model of createError / Errors registry / JSONRPCError.val / processResponse, for every application behaviour "
           "(error types' methods are parameters) and every pair of registration tables: caller error nil iff handler error nil; non-nil "
